@@ -14,6 +14,8 @@ Monitors (all at the boundary the property names):
   * Mode.start / Mode.stop wrappers : which requests were made and accepted (a will_start / will_stop post during the
                                   call) vs. what the reference state machine says must be accepted/rejected
   * mode_controller.active_modes vs {m : m.active} vs the reference states, at every observer call and rest point
+  * completion callbacks handed to Mode.stop(callback=..) by the driver, by hooks, by ball end and game end are
+    wrapped in the Mode.stop wrapper: each runs exactly once, at the completion of the stop it was handed to
   * registry snapshots (vlib/c07_snap.py): event handlers, switch handlers, pending timed-switch entries and pending
     loop timers attributable to a mode, before the first start vs. at every rest point where the mode is stopped;
     on plain machines additionally the COMPLETE handler registries whenever all generated modes are stopped.
@@ -46,6 +48,11 @@ ASSUMPTIONS = [
     "a configured stop (start) event posted by the driver at a rest point while the mode is active (any state) is a "
     "request: Mode.stop (Mode.start) must be invoked for it at least once before the next rest point",
     "active_modes order: only non-increasing priority is demanded (ties in any order)",
+    "stop callbacks: a callback handed to Mode.stop() that returned True belongs to the stop whose mode_<m>_stopped is "
+    "posted next; it must run exactly once, not before that post, not after a later mode_<m>_stopped post, and by the "
+    "first rest point after the completion callback of that mode_<m>_stopped event ran; order among several callbacks "
+    "of one stop and whether they run before or after a restart requested from the stopped event are free; a callback "
+    "handed to a stop() that returned False must never run",
     "registry comparison is made at rest points only (event queue and callback queue empty) and only for modes whose "
     "reference state is stopped; entries are compared without uuids/ids/non-scalar kwargs",
     "loop timers are compared by attribution only (callback bound to the mode, its DelayManager, one of its devices or "
@@ -71,10 +78,11 @@ TIERS = {
 }
 MIN_EVALS = {
     "quick": {"lifecycle_order": 40000, "dispatch_once": 280000, "request_guard": 22000, "progress": 13000,
-              "active_list": 60000, "registry_mode": 27000, "registry_full": 5000, "request_delivered": 38000},
+              "active_list": 60000, "registry_mode": 27000, "registry_full": 5000, "request_delivered": 38000,
+              "stop_callback": 8000},
     "thorough": {"lifecycle_order": 5000000, "dispatch_once": 18000000, "request_guard": 2400000, "progress": 1600000,
                  "active_list": 6000000, "registry_mode": 1800000, "registry_full": 340000,
-                 "request_delivered": 2400000},
+                 "request_delivered": 2400000, "stop_callback": 400000},
 }
 
 
@@ -241,7 +249,7 @@ def gen_case(rng, tier, index):
         if k < 0.14:
             ops.append(["start", mi, rng.choice([None, None, None, 50, 250, 700])])
         elif k < 0.26:
-            ops.append(["stop", mi])
+            ops.append(["stop", mi, rng.random() < 0.6])
         elif k < 0.52:
             ops.append(["post", rng.choice(plain)])
         elif k < 0.60:
@@ -249,7 +257,8 @@ def gen_case(rng, tier, index):
         elif k < 0.64:
             ops.append(["sw", rng.choice(["s_a", "s_b", "s_c", "s_d"]), rng.choice([1, 1, 0])])
         elif k < 0.67:
-            ops.append(["cycle", mi, rng.choice([2, 3, 5] if tier == "quick" else [3, 10, 25, 50])])
+            ops.append(["cycle", mi, rng.choice([2, 3, 5] if tier == "quick" else [3, 10, 25, 50]),
+                        rng.random() < 0.5])
         elif k < 0.72 and kind == "game":
             ops.append([rng.choice(["drain", "drain", "end_game", "start_game"])])
         else:
@@ -416,6 +425,7 @@ class _Model:
         self.restarted_while_finalising = 0
         self.run_restarted = False      # the current (or last) run was started while the previous stop was finalising
         self.stopped_run_restarted = False  # ... same for the run that stopped last
+        self.restart_cycles = set()     # stop numbers whose finalisation saw an accepted start
 
 
 class _Monitor:
@@ -433,7 +443,8 @@ class _Monitor:
         self.viol = []
         self.seen = set()
         self.clauses = {"lifecycle_order": 0, "dispatch_once": 0, "request_guard": 0, "progress": 0, "active_list": 0,
-                        "registry_mode": 0, "registry_full": 0, "request_delivered": 0, "no_crash": 0}
+                        "registry_mode": 0, "registry_full": 0, "request_delivered": 0, "stop_callback": 0,
+                        "no_crash": 0}
         self.obs = {"lifecycle_posts": 0, "start_calls": 0, "stop_calls": 0, "accepted_starts": 0, "accepted_stops": 0,
                     "rejected_requests": 0, "requests_from_lifecycle_handlers": 0, "hook_fires": 0, "held_waits": 0,
                     "requests_while_queue_held": 0, "full_cycles": 0, "snapshots": 0, "rest_points": 0,
@@ -441,7 +452,8 @@ class _Monitor:
                     "registry_entries_compared": 0, "runaway": 0, "starts_while_stop_is_finalising": 0,
                     "progress_unjudged": 0, "code_registrations": 0,
                     "game_fail_stop_on_game_mode_restarted_at_game_end": 0,
-                    "crash_with_game_mode_running_outside_game": 0}
+                    "crash_with_game_mode_running_outside_game": 0, "stop_callbacks_handed_in": 0,
+                    "stop_callbacks_run": 0, "stop_callbacks_while_already_stopping": 0}
         self.ctx = "boot"
         self.lifecycle_posts = 0
         self.last_release = 0.0
@@ -452,6 +464,7 @@ class _Monitor:
         self.in_lifecycle_handler = 0
         self.hooks_enabled = True
         self.reported_entries = set()
+        self.cb_tokens = []
         self.done = False           # set before the machine is shut down: nothing is monitored after that
 
     # ---------------------------------------------------------------------------------------
@@ -528,6 +541,7 @@ class _Monitor:
             self.obs["accepted_starts"] += 1
             M.run_restarted = bool(M.finalising)
             if M.finalising:
+                M.restart_cycles.add(M.cycles)
                 M.restarted_while_finalising += 1
                 self.obs["starts_while_stop_is_finalising"] += 1
         else:
@@ -551,6 +565,12 @@ class _Monitor:
             self.obs["requests_while_queue_held"] += 1
         state = M.state
         expected = state == "active"
+        tok = None
+        if callback:
+            # the stop this request belongs to is the one whose mode_<m>_stopped is posted next
+            tok = {"id": len(self.cb_tokens), "mode": mo.name, "k": M.cycles + 1, "state": state, "runs": 0,
+                   "returned": None, "ctx": str(self.ctx), "judged": False}
+            callback = self._wrap_stop_callback(tok, callback)
         outer = M.call_posts
         M.call_posts = []
         try:
@@ -558,6 +578,12 @@ class _Monitor:
         finally:
             posts = M.call_posts
             M.call_posts = outer
+        if tok is not None:
+            tok["returned"] = bool(res)
+            self.cb_tokens.append(tok)
+            self.obs["stop_callbacks_handed_in"] += 1
+            if tok["returned"] and state == "stopping":
+                self.obs["stop_callbacks_while_already_stopping"] += 1
         accepted = "will_stop" in posts
         self.clauses["request_guard"] += 1
         if accepted:
@@ -572,6 +598,65 @@ class _Monitor:
             self.V("request_guard", "stop_rejected_while_active", mode=mo.name, state=state,
                    real_active=mo.active, real_stopping=mo.stopping, history=M.history[-8:])
         return res
+
+    def request_stop(self, mo, with_callback):
+        """Driver/hook side of a direct stop request, optionally with a completion callback (public API)."""
+        if with_callback:
+            def c07_user_stop_callback():
+                pass
+            return mo.stop(callback=c07_user_stop_callback)
+        return mo.stop()
+
+    def _wrap_stop_callback(self, tok, inner):
+        def c07_stop_callback(*args, **kwargs):
+            self.on_stop_callback(tok)
+            return inner(*args, **kwargs)
+        return c07_stop_callback
+
+    def on_stop_callback(self, tok):
+        if self.done:
+            return
+        M = self.models[tok["mode"]]
+        tok["runs"] += 1
+        tok["run_cycles"] = M.cycles
+        self.clauses["stop_callback"] += 1
+        self.obs["stop_callbacks_run"] += 1
+        info = dict(mode=tok["mode"], handed_in_at=tok["ctx"], state_when_handed_in=tok["state"], belongs_to_stop=tok["k"],
+                    stops_completed_now=M.cycles, state_now=M.state, history=M.history[-10:])
+        if tok["returned"] is False:
+            self.V("stop_callback", "stop_callback_ran_although_stop_returned_false", **info)
+        elif tok["runs"] > 1:
+            self.V("stop_callback", "stop_callback_ran_twice", runs=tok["runs"], **info)
+        elif tok["returned"] is None or M.cycles < tok["k"]:
+            self.V("stop_callback", "stop_callback_ran_before_its_stop_completed", **info)
+        elif M.cycles > tok["k"]:
+            self.V("stop_callback", "stop_callback_ran_at_a_later_stop",
+                   restarted_while_finalising=tok["k"] in M.restart_cycles, **info)
+
+    def check_stop_callbacks(self, final=False):
+        """Rest point: the stop a callback belongs to has completed (mode_<m>_stopped posted, its completion callback
+        run, queues empty) -> the callback has run."""
+        for tok in self.cb_tokens:
+            if tok["judged"]:
+                continue
+            M = self.models[tok["mode"]]
+            if not tok["returned"]:
+                if final:
+                    tok["judged"] = True
+                    self.clauses["stop_callback"] += 1      # watched to the end: must never run (judged when it runs)
+                continue
+            if M.cycles >= tok["k"] and not M.finalising:
+                tok["judged"] = True
+                self.clauses["stop_callback"] += 1
+                if tok["runs"] == 0:
+                    sig = "stop_callback_never_ran_for_its_stop"
+                    if tok["k"] in M.restart_cycles:
+                        sig = "stop_callback_lost_when_mode_restarted_while_stop_is_finalising"
+                    mo = self.m.modes[tok["mode"]]
+                    self.V("stop_callback", sig, mode=tok["mode"], handed_in_at=tok["ctx"],
+                           state_when_handed_in=tok["state"], belongs_to_stop=tok["k"], stops_completed_now=M.cycles,
+                           state_now=M.state, pending_in_mode_stop_callbacks=len(mo.stop_callbacks),
+                           history=M.history[-10:])
 
     # ---------------------------------------------------------------------------------------
     def check_active(self, where):
@@ -639,7 +724,7 @@ class _Monitor:
                 if action == "start_self":
                     m.modes[n].start()
                 elif action == "stop_self":
-                    m.modes[n].stop()
+                    self.request_stop(m.modes[n], hid % 2 == 1)
                 elif action == "post_go_self":
                     m.events.post("go%d" % mi)
                 elif action == "post_halt_self":
@@ -647,7 +732,7 @@ class _Monitor:
                 elif action == "start_other":
                     m.modes[other_name].start()
                 elif action == "stop_other":
-                    m.modes[other_name].stop()
+                    self.request_stop(m.modes[other_name], hid % 2 == 1)
                 elif action == "register_code":
                     # what code-based modes do in mode_start(): register through the mode's own facilities
                     self._register_like_mode_code(n)
@@ -727,6 +812,7 @@ class _Monitor:
                 if M.dispatched[p] > M.posted[p] or (M.dispatched[p] < M.posted[p] and not self.m.events._queue_tasks):
                     self.V("dispatch_once", "lifecycle_event_not_dispatched_exactly_once", mode=n, phase=p,
                            posted=M.posted[p], dispatched=M.dispatched[p])
+        self.check_stop_callbacks()
         # requests by event
         pend, self.pending_delivery = self.pending_delivery, []
         for what, n, event, before, ctx in pend:
@@ -812,6 +898,7 @@ class _Monitor:
 
     # ---------------------------------------------------------------------------------------
     def final(self):
+        self.check_stop_callbacks(final=True)
         holders = [n for n, M in self.models.items()
                    if self.cfg[n]["use_wait_queue"] and M.state != "stopped"]
         for n, M in self.models.items():
@@ -932,8 +1019,9 @@ def run_case(case):
                     else:
                         mo.start(mode_priority=op[2])
                 elif k == "stop":
-                    shape.append("t")
-                    m.modes[case["modes"][op[1]]["name"]].stop()
+                    with_cb = len(op) > 2 and bool(op[2])
+                    shape.append("T" if with_cb else "t")
+                    mon.request_stop(m.modes[case["modes"][op[1]]["name"]], with_cb)
                 elif k == "post":
                     shape.append("p" if op[1][:2] in ("go", "ha", "fl") else "d")
                     if mon.quiescent():
@@ -953,7 +1041,7 @@ def run_case(case):
                     for _ in range(op[2]):
                         mo.start()
                         vm.advance(0.05)
-                        mo.stop()
+                        mon.request_stop(mo, len(op) > 3 and bool(op[3]))
                         vm.advance(0.05)
                         mon.rest_point("cycle")
                 elif k == "drain":
@@ -980,12 +1068,12 @@ def run_case(case):
                 for md in case["modes"]:
                     mo = m.modes[md["name"]]
                     if mo.active and not mo.stopping:
-                        mo.stop()
+                        mon.request_stop(mo, True)
                 vm.advance(max(0.0, mon.last_release - vm.now()) + 1.0)
             for md in case["modes"]:
                 mo = m.modes[md["name"]]
                 if mo.active and not mo.stopping:
-                    mo.stop()
+                    mon.request_stop(mo, True)
             mon.ctx = "final"
             vm.advance(max(0.0, mon.last_release - vm.now()) + HORIZONS["settle_s"])
             mon.clauses["no_crash"] += 1
